@@ -301,6 +301,23 @@ def replay_C07(w, clause):
     cls = shapes.class_by_id(w["class"])
     hcls = cls.__header_schema__
     msgs = [(shapes.from_jsonable(h), shapes.from_jsonable(x)) for h, x in w["msgs"]]
+    if w.get("foreign"):
+        if w.get("bytes") is None:
+            return {"reproduced": None, "error": "witness too large to replay"}
+        data = bytes.fromhex(w["bytes"])
+        rd = io.BytesIO(data)
+        rd.read(w["lead_len"])
+        try:
+            for h, x in msgs:
+                h2 = entity_reader(hcls)(rd)
+                x2 = entity_reader(cls)(rd)
+                if h2 != h or x2 != x:
+                    return {"reproduced": True, "sig": {"kind": "peer_stream_misaligned"}, "detail": f"{w['class']}: a message written by a conforming peer (with unknown tagged fields) decodes to different values: the stream lost alignment"}
+        except Exception as e:
+            return {"reproduced": True, "sig": {"kind": "peer_stream_misaligned", **_exc_sig(e)}, "detail": f"{w['class']}: {type(e).__name__}: {e} while reading back-to-back messages written by a conforming peer"}
+        if rd.read() != bytes.fromhex(w["trail"]):
+            return {"reproduced": True, "sig": {"kind": "peer_stream_misaligned", "where": "trail"}, "detail": f"{w['class']}: bytes after the last peer-written message are not exactly the trailing bytes"}
+        return {"reproduced": False, "detail": "peer-written stream decodes in order"}
     lead, trail = bytes.fromhex(w["lead"]), bytes.fromhex(w["trail"])
 
     class WriteOnly:
